@@ -252,6 +252,49 @@ def run(ctx, proof):
         if asymmetric(n, g):
             ctx.nontrivial.add(("relabel", n, tuple(pi), tuple(float(x) for x in g)))
 
+    # large player counts ("numerically beyond"): carrier games v(S) = w(S & C) with |C| <= 5, C containing high-index
+    # players. Their ordering average is known exactly without enumerating n! orders: players outside C get 0 and a player
+    # of C gets the ordering average of w over the |C|! induced orders.
+    from incomplete_cooperative.shapley import compute_shapley_value, compute_shapley_value_for_player
+    big_plan = [(11, 2, "both"), (14, 1, "both"), (17, 1, "all"), (18, 1, "some")] if ctx.quick else \
+        [(9, 6, "both"), (10, 6, "both"), (11, 4, "both"), (12, 4, "both"), (13, 3, "both"), (14, 3, "both"), (15, 2, "both"),
+         (16, 2, "both"), (17, 2, "both"), (18, 1, "both"), (19, 1, "some"), (20, 1, "some")]
+    for (n, cnt, mode) in big_plan:
+        for _ in range(cnt):
+            k = rng.randint(2, 5)
+            C = sorted(set([n - 1] + rng.sample(range(n), k - 1)))     # always contains the highest-index player
+            k = len(C)
+            w = [0] + [rng.randint(-9, 9) for _ in range(2 ** k - 1)]
+            sub = perm_average(k, w)
+            expected = [Fraction(0)] * n
+            for j, pl in enumerate(C):
+                expected[pl] = sub[j]
+            ids = np.arange(2 ** n, dtype=np.int64)
+            proj = np.zeros(2 ** n, dtype=np.int64)
+            for j, pl in enumerate(C):
+                proj |= ((ids >> pl) & 1) << j
+            vbig = np.array(w, dtype=np.float64)[proj]
+            from incomplete_cooperative.game import IncompleteCooperativeGame
+            g = IncompleteCooperativeGame(n)
+            g.set_values(vbig)
+            got = {}
+            if mode in ("both", "all"):
+                for i, x in enumerate(compute_shapley_value(g)):
+                    got[("all", i)] = float(x)
+            players = range(n) if mode == "both" else sorted(set([n - 1, 0, C[0], rng.randrange(n)]))
+            for i in players:
+                got[("single", i)] = float(compute_shapley_value_for_player(i, g))
+            ctx.evaluations += 1
+            ctx.count("carrier_games_n", n)
+            bad = [(kind, i, x, float(expected[i])) for (kind, i), x in got.items() if not close(x, float(expected[i]), 1e-9, 100.0)]
+            if bad:
+                ctx.violation(f"n = {n}: the Shapley value of a game carried by players {C} differs from the ordering average "
+                              f"(entry point, player, got, expected): {bad[:3]}",
+                              {"n": n, "carrier": C, "w (values of the carrier sub-game by sub-coalition id)": w,
+                               "game": "v(S) = w(S restricted to the carrier)", "failures": str(bad[:6])})
+            else:
+                ctx.nontrivial.add(("carrier", n, tuple(C), tuple(w)))
+
     # in-Coq shard: the same cases evaluated by vm_compute on the Gallina model; must equal the extracted model's output
     shard = [(c, out) for c, out in zip(cases, outs) if c["n"] <= 6]
     rng.shuffle(shard)
